@@ -439,6 +439,9 @@ class Node(Root):
     r: Root
 
 
+Leaf.__gengy_field_names__ = ("x",)     # (what gram.canon reads the children of a class instance from)
+Node.__gengy_field_names__ = ("l", "r")
+
 _TREE = None
 
 
